@@ -1,24 +1,24 @@
 #!/bin/bash
 # Rebuilds everything the checks need from /repo's current working tree.
-# usage: build.sh [sched]   (sched: also build the map-range instrumented vtool-sched)
+# usage: build.sh [sched] [su]   (sched: the map-range instrumented vtool-sched; su: the self-update binaries)
 set -euo pipefail
 . "$(dirname "$0")/env.sh"
-B="$VERIF_ROOT/.build"
+B="$VERIF_BUILD"
 cd "$VERIF_REPO"
 # plain CLI, exactly the repository code (guard tag on, no overlay)
 go build -tags verif -o "$B/crs" . 
 python3 "$VERIF_ROOT/bin/mkoverlay.py" "$B/overlay.json"
-go build -tags verif -overlay "$B/overlay.json" -o "$B/vtool" ./zz_verif/vt
+WANT=" $* "
 # self-update binaries: the repository code plus the fake transport, one per running version
 python3 - "$B/overlay-su.json" <<PY
 import json,sys,os
 repo=os.environ["VERIF_REPO"]; root=os.environ["VERIF_ROOT"]
 json.dump({"Replace":{repo+"/internal/updater/zz_verif_transport.go": root+"/shims/internal__updater/zz_verif_transport.go"}}, open(sys.argv[1],"w"))
 PY
-if [ "${1:-}" = su ] || [ "${2:-}" = su ]; then
+if [[ "$WANT" == *" su "* ]]; then
   go build -tags verif -overlay "$B/overlay-su.json" -ldflags "-X main.version=2.0.0" -o "$B/crs-su-2.0.0" .
   go build -tags verif -overlay "$B/overlay-su.json" -o "$B/crs-su-dev" .
 fi
-if [ "${1:-}" = sched ]; then
+if [[ "$WANT" == *" sched "* ]]; then
   "$VERIF_ROOT/bin/build-sched.sh"
 fi
